@@ -1319,15 +1319,16 @@ impl GRLParser {
             return self.parse_array_literal(trimmed);
         }
 
-        // String literal
-        if trimmed.len() >= 2 {
-            let unquoted = &trimmed[1..trimmed.len() - 1];
-            if (trimmed.starts_with('"') && trimmed.ends_with('"') && !unquoted.contains('"'))
-                || (trimmed.starts_with('\'')
-                    && trimmed.ends_with('\'')
-                    && !unquoted.contains('\''))
+        // String literal (strip_prefix/strip_suffix: slicing at byte 1 would panic when
+        // the value starts or ends with a multi-byte character)
+        for quote in ['"', '\''] {
+            if let Some(unquoted) = trimmed
+                .strip_prefix(quote)
+                .and_then(|rest| rest.strip_suffix(quote))
             {
-                return Ok(Value::String(unquoted.to_string()));
+                if !unquoted.contains(quote) {
+                    return Ok(Value::String(unquoted.to_string()));
+                }
             }
         }
 
